@@ -79,8 +79,10 @@ inductive Step (P : Params) (s : State) : State → Prop where
       Step P s { s with result := updF s.result i (some
           { inc := s.inc i, reads := [], writes := ow, out := .err e }),
                         phase := updF s.phase i (.tailPreTs (i + 1) .conflict) }
-  | tailTs (i : TxId) (k : Nat) (st : Status) (hp : s.phase i = .tailPreTs k st) :
+  | tailTs (i : TxId) (k : Nat) (st : Status) (hp : s.phase i = .tailPreTs k st) (hk : k < P.n) :
       Step P s { s with clock := s.clock + 1, phase := updF s.phase i (.tailLts k s.clock st) }
+  | tailSkip (i : TxId) (k : Nat) (st : Status) (hp : s.phase i = .tailPreTs k st) (hk : ¬ k < P.n) :
+      Step P s { s with status := updF s.status i st, phase := updF s.phase i .idle }
   | tailLts (i : TxId) (k ts : Nat) (st : Status) (hp : s.phase i = .tailLts k ts st) :
       Step P s { s with lts := updF s.lts k (max (s.lts k) ts), status := updF s.status i st,
                         phase := updF s.phase i .idle }
@@ -204,7 +206,10 @@ theorem step_sound {P : Params} {s s' : State} {a : Act} (h : step P s a = some 
   | tailTs i =>
     simp only [step] at h
     split at h
-    · rename_i k st hp; simp at h; subst h; exact .tailTs i k st hp
+    · rename_i k st hp
+      split at h
+      · rename_i hk; simp at h; subst h; exact .tailTs i k st hp hk
+      · rename_i hk; simp at h; subst h; exact .tailSkip i k st hp hk
     · simp at h
   | tailLts i =>
     simp only [step] at h
